@@ -37,6 +37,18 @@ type funcGen struct {
 	// locals maps from local identifier (without '%' prefix) to corresponding IR
 	// value.
 	locals map[ir.LocalIdent]value.Value
+	// explicitZero holds the basic blocks, instructions and terminators given
+	// the local ID %0 explicitly in the input (the zero ID of an IR value is
+	// indistinguishable from an ID that is yet to be assigned).
+	explicitZero []local
+}
+
+// recordExplicitID records v if ident, the local identifier given to it
+// explicitly in the input, is the local ID %0.
+func (fgen *funcGen) recordExplicitID(ident ir.LocalIdent, v interface{}) {
+	if l, ok := v.(local); ok && ident.IsUnnamed() && ident.LocalID == 0 {
+		fgen.explicitZero = append(fgen.explicitZero, l)
+	}
 }
 
 // newFuncGen returns a new generator for the given IR function.
@@ -137,6 +149,9 @@ func (fgen *funcGen) explicitLocalIDs() []explicitLocalID {
 		}
 		record(block.Term)
 	}
+	for _, v := range fgen.explicitZero {
+		explicit = append(explicit, explicitLocalID{v: v, id: 0})
+	}
 	return explicit
 }
 
@@ -150,6 +165,7 @@ func (fgen *funcGen) newLocals(oldBlocks []ast.BasicBlock) error {
 		block := &ir.Block{}
 		if n, ok := oldBlock.Name(); ok {
 			block.LocalIdent = labelIdent(n)
+			fgen.recordExplicitID(block.LocalIdent, block)
 		}
 		if oldInsts := oldBlock.Insts(); len(oldInsts) > 0 {
 			block.Insts = make([]ir.Instruction, len(oldInsts))
